@@ -490,6 +490,34 @@ def stage(o, tier, seed, node_traces=True, probe_finding=True):
     log("[%s] cluster tier: %d runs, %d decisions, %.0fs" % (o.pid, len(main_tr), dec, time.time() - t0))
 
 
+def stage_safety(o, tier, seed):
+    """The SAFETY part of the cluster tier as a stage of C01 (one decided value per duty across the cluster is the pipeline's
+    first mechanism): the families in which the decision falls in a later round than the one a value was prepared in, with
+    all members proposing different values (lost round-1 COMMITs, leaders re-proposing another member's value), a few
+    fault-free runs and a second duty on used components - every run marked not timely, so that nothing about progress
+    (C04's statement) is judged; no probes of liveness findings, no member transcripts."""
+    thorough = tier == "thorough"
+    r = vlib.rng(seed, "conscluster/safety")
+    sch = loss(r, thorough) + honest(r, False)[:4] + second_duty(r, False)[:2]
+    for s in sch:
+        s[0]["timely"] = False
+        s[0]["expire"] = False
+    traces, sids, wall = vlib.run_schedules(o.pid, PKG, "TestExec", sch, tag="clustersafety", timeout=600)
+    if len(traces) != len(sch):
+        raise vlib.Infra("executor returned %d traces for %d schedules" % (len(traces), len(sch)))
+    v = vlib.validate_traces(o.pid, FAMILY, "QBFTClusterTrace", cfg_of, traces, chunk=40, timeout=600)
+    log("[%s] %s/cluster safety: %d runs (%d events) executed in %.1fs, validated in %.1fs: %d accepted, %d rejected"
+        % (o.pid, FAMILY, len(sch), sum(len(t) for t in traces), wall, v.wall, len(v.accepted), len(v.rejected)))
+    if v.rejected:
+        bad = sorted({i for i, _, _ in v.rejected})[:4]
+        vlib.conformance(o, FAMILY, "QBFTClusterTrace", cfg_of, PKG, [sch[i] for i in bad], tag="clustersafety_rejected",
+                         exec_timeout=600, tv_timeout=600, max_report=3)
+    else:
+        _account(o, sch, traces, v, "clustersafety")
+    o.extra["cluster_safety_runs"] = len(sch)
+    o.extra["cluster_safety_decisions"] = sum(1 for t in traces for e in t if e.get("ev") == "Decide")
+
+
 RULE = ("cluster tier: n = 4, 6, 7 real qbft.Consensus components on mocknet inside testing/synctest; fault-free runs for every "
         "leader rotation, one/f crashes at sampled points incl. between PREPARE and COMMIT, lost round-1 COMMITs, late and "
         "proposal-less members, a Byzantine member re-using honest signatures in DECIDED / PRE-PREPARE justifications; every "
